@@ -117,12 +117,18 @@ def args_of(cfg, track=None):
     return a
 
 
-def observe(exe, cfg, sigat, wd, tag, track=None):
+def _ignore_sigint():
+    import signal
+    signal.signal(signal.SIGINT, signal.SIG_IGN)
+
+
+def observe(exe, cfg, sigat, wd, tag, track=None, inherit_ignored=False):
+    """inherit_ignored: the program is started with SIGINT set to 'ignore' (as a background job of a non-interactive shell is)"""
     tr = os.path.join(wd, "trace_%s.txt" % tag)
     env = {"INOVESA_VERIF_TRACE": tr}
     if sigat:
         env["INOVESA_VERIF_SIGINT_AT"] = ",".join(str(x) for x in sigat)
-    r = pl.run(exe, args_of(cfg, track), wd, out="o_%s.h5" % tag, env_extra=env)
+    r = pl.run(exe, args_of(cfg, track), wd, out="o_%s.h5" % tag, env_extra=env, preexec_fn=_ignore_sigint if inherit_ignored else None)
     labels = []
     if os.path.exists(tr):
         with open(tr) as f:
@@ -138,7 +144,7 @@ def observe(exe, cfg, sigat, wd, tag, track=None):
     for ln in r["log"].replace("\r", "\n").splitlines():
         if ln.rstrip().endswith("Finished.") or ln.rstrip().endswith("Aborted."):
             word = ln.rstrip().split()[-1]
-    return dict(rc=r["rc"], log=r["log"], cmd=r["cmd"] + ("   [env INOVESA_VERIF_SIGINT_AT=%s]" % env.get("INOVESA_VERIF_SIGINT_AT", "")), labels=labels, doc=doc, word=word)
+    return dict(rc=r["rc"], log=r["log"], cmd=r["cmd"] + ("   [env INOVESA_VERIF_SIGINT_AT=%s%s]" % (env.get("INOVESA_VERIF_SIGINT_AT", ""), "; started with SIGINT ignored (trap '' INT)" if inherit_ignored else "")), labels=labels, doc=doc, word=word)
 
 
 def dim0(doc, name):
